@@ -81,7 +81,19 @@ type opDef struct {
 	kind   string // api | copy | wr
 	noIn   bool   // the operation does not open in.pdf (merge append)
 	outPDF bool   // an existing destination must be a PDF
+	dirOut bool   // `out` is a directory; the operation chooses the file name (split / extract)
+	refRun bool   // the expected bytes come from a reference run of the operation
 	run    func(in, out string) error
+}
+
+// entry number of a file name (names chosen by split/extract operations get the next free number)
+func idFor(name string) int {
+	if id, ok := entID[name]; ok {
+		return id
+	}
+	id := 11 + len(entID) - 9
+	entID[name] = id
+	return id
 }
 
 // no object streams / xref streams: the time stamps and the document ID stay plain text (see normPDF)
@@ -103,11 +115,30 @@ func opDefs(dir string) []opDef {
 		{name: "MergeAppendFile", kind: "api", noIn: true, outPDF: true, run: func(in, out string) error {
 			return api.MergeAppendFile([]string{filepath.Join(dir, "in2.pdf")}, out, false, conf())
 		}},
+		// the pkg/pdfcpu write path: createStagedFile + finishStagedFile
+		{name: "ExtractPagesFile", kind: "wr", noIn: true, dirOut: true, refRun: true, run: func(in, out string) error {
+			return api.ExtractPagesFile(filepath.Join(dir, "in.pdf"), out, []string{"1"}, conf())
+		}},
+		{name: "WriteContext", kind: "wr", noIn: true, refRun: true, run: func(in, out string) error {
+			ctx, err := api.ReadContextFile(filepath.Join(dir, "in.pdf"))
+			if err != nil {
+				return err
+			}
+			ctx.Write.DirName = filepath.Dir(out)
+			ctx.Write.FileName = filepath.Base(out)
+			return pdfcpu.WriteContext(ctx)
+		}},
 		{name: "TrimFile", kind: "api", run: func(in, out string) error { return api.TrimFile(in, out, []string{"1"}, conf()) }},
 		{name: "AddTextWatermarksFile", kind: "api", run: func(in, out string) error {
 			return api.AddTextWatermarksFile(in, out, nil, true, "Draft", "fo:Courier, scale:.9, op:.6", conf())
 		}},
 		{name: "RemovePagesFile", kind: "api", run: func(in, out string) error { return api.RemovePagesFile(in, out, []string{"2"}, conf()) }},
+		{name: "SplitFile", kind: "wr", noIn: true, dirOut: true, refRun: true, run: func(in, out string) error {
+			return api.SplitFile(filepath.Join(dir, "in.pdf"), out, 3, conf())
+		}},
+		{name: "ExtractContentFile", kind: "wr", noIn: true, dirOut: true, refRun: true, run: func(in, out string) error {
+			return api.ExtractContentFile(filepath.Join(dir, "in.pdf"), out, []string{"1"}, conf())
+		}},
 	}
 }
 
@@ -119,6 +150,7 @@ type relation struct {
 	inSp    int         // spelling of the input
 	outMode os.FileMode // mode of a pre-existing regular out.pdf (0 = none)
 	inplace bool        // only for operations that accept outFile == "" / same path
+	umask   int         // process umask during the call (0 = 022)
 }
 
 func relations() []relation {
@@ -127,6 +159,14 @@ func relations() []relation {
 		{name: "existing-0600", outName: "out.pdf", outMode: 0o600},
 		{name: "existing-0640", outName: "out.pdf", outMode: 0o640},
 		{name: "existing-0444", outName: "out.pdf", outMode: 0o444},
+		// group/other-writable destinations: bits the umask would mask if the mode were passed to open(2)
+		{name: "existing-0660", outName: "out.pdf", outMode: 0o660},
+		{name: "existing-0664", outName: "out.pdf", outMode: 0o664},
+		{name: "existing-0666", outName: "out.pdf", outMode: 0o666},
+		{name: "existing-0775", outName: "out.pdf", outMode: 0o775},
+		{name: "existing-0664-umask077", outName: "out.pdf", outMode: 0o664, umask: 0o077},
+		{name: "new-umask077", outName: "out.pdf", umask: 0o077},
+		{name: "new-umask002", outName: "out.pdf", umask: 0o002},
 		{name: "same-path", outName: "in.pdf", inplace: true},
 		{name: "empty-outfile", outName: "", inplace: true},
 		{name: "dot-slash", outName: "in.pdf", outSp: 1, inSp: 2, inplace: true},
@@ -268,9 +308,10 @@ type harness struct {
 	two   []byte // a 2-page PDF: the content of a pre-existing PDF destination
 	n     int
 	refs  map[string][]byte
+	dests map[string]string
 }
 
-func (h *harness) mkdir(rel relation, o opDef) string {
+func (h *harness) mkdir(rel relation, o opDef, existing string) string {
 	h.n++
 	d := filepath.Join(h.base, fmt.Sprintf("d%d", h.n))
 	os.RemoveAll(d)
@@ -288,9 +329,9 @@ func (h *harness) mkdir(rel relation, o opDef) string {
 	w("other.dat", []byte("other"), 0o600)
 	if rel.outMode != 0 {
 		if o.outPDF {
-			w("out.pdf", h.two, rel.outMode)
+			w(existing, h.two, rel.outMode)
 		} else {
-			w("out.pdf", []byte("EXISTING OUTPUT, not a PDF"), rel.outMode)
+			w(existing, []byte("EXISTING OUTPUT, not a PDF"), rel.outMode)
 		}
 	}
 	switch rel.outName {
@@ -339,17 +380,54 @@ func (h *harness) reference(o opDef, destName string, destContent []byte) []byte
 	if destContent != nil && o.outPDF {
 		os.WriteFile(out, destContent, 0o644)
 	}
+	arg := out
+	if o.dirOut {
+		arg = d
+	}
 	ops := opDefs(d)
 	var b []byte
 	for _, x := range ops {
 		if x.name == o.name {
-			if err := x.run(filepath.Join(d, "in.pdf"), out); err == nil {
+			if err := x.run(filepath.Join(d, "in.pdf"), arg); err == nil {
 				b, _ = os.ReadFile(out)
 			}
 		}
 	}
 	h.refs[key] = b
 	return b
+}
+
+// the file name a split/extract operation chooses in its output directory
+func (h *harness) destOf(o opDef) string {
+	if n, ok := h.dests[o.name]; ok {
+		return n
+	}
+	h.n++
+	d := filepath.Join(h.base, fmt.Sprintf("dest%d", h.n))
+	os.MkdirAll(d, 0o755)
+	defer os.RemoveAll(d)
+	os.WriteFile(filepath.Join(d, "in.pdf"), h.multi, 0o644)
+	os.WriteFile(filepath.Join(d, "in2.pdf"), h.small, 0o644)
+	for _, x := range opDefs(d) {
+		if x.name == o.name {
+			if err := x.run(filepath.Join(d, "in.pdf"), d); err != nil {
+				panic("cannot determine the output name of " + o.name + ": " + err.Error())
+			}
+		}
+	}
+	var l []string
+	ents, _ := os.ReadDir(d)
+	for _, e := range ents {
+		if e.Name() != "in.pdf" && e.Name() != "in2.pdf" {
+			l = append(l, e.Name())
+		}
+	}
+	if len(l) != 1 {
+		panic(fmt.Sprintf("%s: expected exactly one output, got %v", o.name, l))
+	}
+	idFor(l[0])
+	h.dests[o.name] = l[0]
+	return l[0]
 }
 
 func resolveContent(m map[string]snapEntry, name string) ([]byte, os.FileMode, bool) {
@@ -368,8 +446,16 @@ func resolveContent(m map[string]snapEntry, name string) ([]byte, os.FileMode, b
 
 func (h *harness) runCase(o opDef, rel relation) {
 	r := h.r
-	dir := h.mkdir(rel, o)
+	existing := "out.pdf"
+	if o.dirOut {
+		existing = h.destOf(o)
+	}
+	dir := h.mkdir(rel, o, existing)
 	defer os.RemoveAll(dir)
+	um := rel.umask
+	if um == 0 {
+		um = 0o022
+	}
 	if err := os.Chdir(dir); err != nil {
 		panic(err)
 	}
@@ -391,6 +477,10 @@ func (h *harness) runCase(o opDef, rel relation) {
 	if destName == "" {
 		destName = "in.pdf"
 	}
+	if def.dirOut {
+		destName = existing
+		out = dir
+	}
 	destBefore, destModeBefore, destExisted := resolveContent(before, destName)
 	var ref []byte
 	switch def.kind {
@@ -398,6 +488,9 @@ func (h *harness) runCase(o opDef, rel relation) {
 		ref = h.multi
 	case "wr":
 		ref = wrData
+		if def.refRun {
+			ref = h.reference(def, destName, nil)
+		}
 	default:
 		if def.outPDF {
 			ref = h.reference(def, destName, destBefore)
@@ -413,6 +506,8 @@ func (h *harness) runCase(o opDef, rel relation) {
 				r.OracleFail("operation-panics:"+o.name, map[string]any{"op": o.name, "relation": rel.name}, fmt.Sprint(p))
 			}
 		}()
+		old := syscall.Umask(um)
+		defer syscall.Umask(old)
 		err = def.run(in, out)
 	}()
 	after := snapshot(dir)
@@ -421,7 +516,12 @@ func (h *harness) runCase(o opDef, rel relation) {
 		res = "err"
 	}
 	rendered := render(before, after, ref)
-	input := map[string]any{"op": o.name, "relation": rel.name, "in": in, "out": out}
+	input := map[string]any{"op": o.name, "relation": rel.name, "in": in, "out": out, "umask": fmt.Sprintf("%o", um)}
+	umArg := fmt.Sprintf("%x", um)
+	outArg := spArg(rel.outName, rel.outSp)
+	if def.dirOut {
+		outArg = spArg(destName, 0)
+	}
 	r.Count("relation:" + rel.name)
 	r.Count("op:" + o.name + ":" + res)
 
@@ -436,19 +536,19 @@ func (h *harness) runCase(o opDef, rel relation) {
 		if err != nil {
 			readsOK = "-"
 		}
-		r.Case("api", []string{rd, inF, spArg(rel.outName, rel.outSp), mdir, minos}, res+"|"+rendered+"|"+readsOK)
+		r.Case("api", []string{umArg, rd, inF, outArg, mdir, minos}, res+"|"+rendered+"|"+readsOK)
 	case "copy":
 		readsOK := "reads-ok"
 		if err != nil {
 			readsOK = "-"
 		}
-		r.Case("copy", []string{spArg("in.pdf", rel.inSp), spArg(destName, rel.outSp), mdir, minos}, res+"|"+rendered+"|"+readsOK)
+		r.Case("copy", []string{umArg, spArg("in.pdf", rel.inSp), spArg(destName, rel.outSp), mdir, minos}, res+"|"+rendered+"|"+readsOK)
 	case "wr":
 		readsOK := "reads-ok"
 		if err != nil {
 			readsOK = "-"
 		}
-		r.Case("wr", []string{spArg(destName, rel.outSp), mdir, minos}, res+"|"+rendered+"|"+readsOK)
+		r.Case("wr", []string{umArg, spArg(destName, rel.outSp), mdir, minos}, res+"|"+rendered+"|"+readsOK)
 	}
 
 	// O
@@ -476,7 +576,7 @@ func (h *harness) runCase(o opDef, rel relation) {
 		fail("destination-not-the-complete-output")
 		okAll = false
 	}
-	if ok && def.kind == "api" {
+	if ok && (def.kind == "api" || (def.refRun && strings.HasSuffix(destName, ".pdf"))) {
 		if verr := api.ValidateFile(filepath.Join(dir, destName), nil); verr != nil {
 			fail("destination-does-not-validate")
 			okAll = false
@@ -484,7 +584,7 @@ func (h *harness) runCase(o opDef, rel relation) {
 	}
 	// permission bits
 	if ok {
-		want := os.FileMode(0o644)
+		want := os.FileMode(0o666) &^ os.FileMode(um)
 		if destExisted {
 			want = destModeBefore
 		}
@@ -523,7 +623,7 @@ func (h *harness) runCase(o opDef, rel relation) {
 func (h *harness) aliasCases() {
 	r := h.r
 	rel := relation{name: "alias", outName: "link.pdf", outMode: 0o600}
-	dir := h.mkdir(rel, opDef{})
+	dir := h.mkdir(rel, opDef{}, "out.pdf")
 	defer os.RemoveAll(dir)
 	os.Link(filepath.Join(dir, "in.pdf"), filepath.Join(dir, "hl.pdf"))
 	os.Symlink("in2.pdf", filepath.Join(dir, "olink.pdf"))
@@ -568,7 +668,7 @@ func main() {
 	os.RemoveAll(base)
 	os.MkdirAll(base, 0o755)
 	defer os.RemoveAll(base)
-	h := &harness{r: r, base: base, refs: map[string][]byte{}}
+	h := &harness{r: r, base: base, refs: map[string][]byte{}, dests: map[string]string{}}
 	repo := os.Getenv("VERIF_REPO")
 	if repo == "" {
 		repo = "/repo"
@@ -593,10 +693,16 @@ func main() {
 	os.Chdir(base)
 
 	defs := opDefs(base)
-	n := r.Pick(5, len(defs))
+	n := r.Pick(7, len(defs))
 	for _, o := range defs[:n] {
 		for _, rel := range relations() {
 			if o.kind == "copy" && rel.outName == "" {
+				continue
+			}
+			if o.dirOut && rel.outName != "out.pdf" {
+				continue // the operation names its output itself: new / existing with each mode
+			}
+			if o.dirOut && rel.outSp != 0 {
 				continue
 			}
 			if rel.inplace && (o.kind == "wr" || o.noIn) {
